@@ -19,7 +19,7 @@ print(' '.join(ids[:2]))")
   (cd $repo && git checkout -q -- . && git apply $d/patch.diff) || { echo "$name: PATCH DOES NOT APPLY"; continue; }
   hit=""
   for c in $checks; do
-    /venv/bin/python $here/depsim/check.py $c --tier quick --no-selftest --no-shrink > /tmp/regress_$name.$c.out 2>&1; rc=$?
+    /venv/bin/python $here/depsim/check.py $c --tier quick --no-selftest --no-shrink --first > /tmp/regress_$name.$c.out 2>&1; rc=$?
     if [ $rc -eq 1 ]; then hit="$c"; break; fi
   done
   (cd $repo && git checkout -q -- .)
